@@ -169,32 +169,47 @@ Definition send_gate (w : world) (m : frame) : option (cstate * role) :=
   if is_disc (st w) then None
   else if cstate_eqb (st w) NCE then
     if mtype_eqb (f_type m) TLogon || mtype_eqb (f_type m) TLogout then Some (LogonSent, Initiator) else None
-  else if role_eqb (rl w) Initiator && cstate_eqb (st w) LogonSent && negb (mtype_eqb (f_type m) TLogout) then None
-  else Some (st w, rl w).
+  else if role_eqb (rl w) Initiator then
+    (if cstate_eqb (st w) LogonSent && negb (mtype_eqb (f_type m) TLogout) then None else Some (st w, rl w))
+  else if cstate_eqb (st w) LogonRecv && negb (mtype_eqb (f_type m) TLogon) && negb (mtype_eqb (f_type m) TLogout)
+  then None else Some (st w, rl w).
 
 Definition own_number (m : frame) : bool := mtype_eqb (f_type m) TSeqReset || f_pd m.
 
-(* the world when the frame has been written and drained, before the journal write *)
+(* the world after an unjournaled frame has been written and drained *)
 Definition written (w : world) (s : cstate) (r : role) (no : Z) (f : frame) : world :=
   mkW (nin w) no s r (maxres w) (dlv w) (ctor w) (base w) ((log w ++ [EWrite f]) ++ [EDrain]) (past w).
 
 Definition out_frame (m : frame) (n : Z) : frame := mkF (f_type m) n (f_pd m) (f_a m) (f_b m).
 
+(* the effects of a completed original send: journal first, then the transport *)
+Definition send_effects (f : frame) : list effect := map EStmt (persist_out_prims f) ++ [EWrite f; EDrain].
+
+(* the world after a completed original send *)
+Definition sent (w : world) (s : cstate) (r : role) (f : frame) : world :=
+  mkW (nin w) (nout w + 1) s r (maxres w) (dlv w) (ctor w) (base w) (log w ++ send_effects f) (past w).
+
 Lemma world_eta : forall w, mkW (nin w) (nout w) (st w) (rl w) (maxres w) (dlv w) (ctor w) (base w) (log w) (past w) = w.
 Proof. destruct w; reflexivity. Qed.
+
+Ltac gate_cases Hg w m :=
+  unfold send_gate in Hg;
+  destruct (is_disc (st w)) eqn:Hd;
+  [|destruct (cstate_eqb (st w) NCE) eqn:Hn;
+    [destruct (mtype_eqb (f_type m) TLogon || mtype_eqb (f_type m) TLogout) eqn:Hl
+    |destruct (role_eqb (rl w) Initiator) eqn:Hro;
+      [destruct (cstate_eqb (st w) LogonSent && negb (mtype_eqb (f_type m) TLogout)) eqn:Hi
+      |destruct (cstate_eqb (st w) LogonRecv && negb (mtype_eqb (f_type m) TLogon) && negb (mtype_eqb (f_type m) TLogout)) eqn:Hi]]].
 
 Lemma send_refused : forall w m, send_gate w m = None \/ mtype_eqb (f_type m) TTest = true ->
   send_msg m w = (inr XConn, w).
 Proof.
-  intros w m H. unfold send_msg. munfold. unfold send_gate in H.
-  destruct (is_disc (st w)) eqn:Hd; [reflexivity|].
-  destruct (cstate_eqb (st w) NCE) eqn:Hn.
-  - destruct (mtype_eqb (f_type m) TLogon || mtype_eqb (f_type m) TLogout) eqn:Hl; [|reflexivity].
-    destruct H as [H|H]; [discriminate|].
-    destruct (f_type m); discriminate.
-  - destruct (role_eqb (rl w) Initiator && cstate_eqb (st w) LogonSent && negb (mtype_eqb (f_type m) TLogout)) eqn:Hi;
-      [reflexivity|].
-    destruct H as [H|H]; [discriminate|]. rewrite H. reflexivity.
+  intros w m H. unfold send_msg. munfold.
+  assert (Hg : send_gate w m = send_gate w m) by reflexivity. revert Hg H. generalize (send_gate w m) at 2 3.
+  intros g Hg H. gate_cases Hg w m; try reflexivity.
+  - destruct H as [H|H]; [subst g; discriminate|]. destruct (f_type m); discriminate.
+  - destruct H as [H|H]; [subst g; discriminate|]. rewrite H. reflexivity.
+  - destruct H as [H|H]; [subst g; discriminate|]. rewrite H. reflexivity.
 Qed.
 
 Lemma own_unjournaled : forall m, own_number m = false -> unjournaled m = false.
@@ -203,38 +218,51 @@ Proof.
   rewrite H1, H2. reflexivity.
 Qed.
 
-Lemma send_alloc : forall w m s r, send_gate w m = Some (s, r) -> mtype_eqb (f_type m) TTest = false ->
-  own_number m = false ->
-  send_msg m w = persist_out (out_frame m (nout w)) (written w s r (nout w + 1) (out_frame m (nout w))).
+(* an original send whose number is free in the journal: journaled, written, drained *)
+Lemma send_alloc_ok : forall w m s r, send_gate w m = Some (s, r) -> mtype_eqb (f_type m) TTest = false ->
+  own_number m = false -> has_out (jt w) (nout w) = false ->
+  send_msg m w = (inl tt, sent w s r (out_frame m (nout w)))
+  /\ db (sent w s r (out_frame m (nout w)))
+     = mkDb (ins_out_tab (jt w) (out_frame m (nout w))) (ins_out_tab (jt w) (out_frame m (nout w))).
 Proof.
-  intros w m s r Hg Ht Ho. pose proof (own_unjournaled m Ho) as Hu.
-  unfold send_msg. munfold. unfold send_gate in Hg. unfold own_number in Ho.
-  destruct (is_disc (st w)) eqn:Hd; [discriminate|].
-  destruct (cstate_eqb (st w) NCE) eqn:Hn.
-  - destruct (mtype_eqb (f_type m) TLogon || mtype_eqb (f_type m) TLogout) eqn:Hl; [|discriminate].
-    inversion Hg; subst s r. rewrite Ht. cbn [nout nin st rl maxres dlv ctor base log past]. rewrite Ho, Hu.
-    reflexivity.
-  - destruct (role_eqb (rl w) Initiator && cstate_eqb (st w) LogonSent && negb (mtype_eqb (f_type m) TLogout)) eqn:Hi;
-      [discriminate|].
-    inversion Hg; subst s r. rewrite Ht. rewrite Ho, Hu. reflexivity.
+  intros w m s r Hg Ht Ho Hh. pose proof (own_unjournaled m Ho) as Hu.
+  set (f := out_frame m (nout w)).
+  assert (Hdb : db (sent w s r f) = mkDb (ins_out_tab (jt w) f) (ins_out_tab (jt w) f)).
+  { unfold db, sent, send_effects. cbn [base log]. rewrite replay_app, fold_left_app.
+    change (replay (base w) (log w)) with (db w).
+    destruct (persist_out_run_ok (db w) f Hh) as [_ Hf]. rewrite Hf. reflexivity. }
+  split; [|exact Hdb].
+  assert (Hgen : forall W0, nin W0 = nin w -> nout W0 = nout w + 1 -> st W0 = s -> rl W0 = r -> maxres W0 = maxres w ->
+            dlv W0 = dlv w -> ctor W0 = ctor w -> base W0 = base w -> log W0 = log w -> past W0 = past w ->
+            (let (s0, w') := persist_out f W0 in
+             match s0 with
+             | inl _ => (inl tt, mkW (nin w') (nout w') (st w') (rl w') (maxres w') (dlv w') (ctor w') (base w')
+                                     ((log w' ++ [EWrite f]) ++ [EDrain]) (past w'))
+             | inr e => (inr e, w')
+             end) = (inl tt, sent w s r f)).
+  { intros W0 H1 H2 H3 H4 H5 H6 H7 H8 H9 H10.
+    assert (HjW : jt W0 = jt w) by (unfold jt, db; rewrite H8, H9; reflexivity).
+    destruct (persist_out_ok f W0) as [Hp _]; [rewrite HjW; exact Hh|]. rewrite Hp.
+    cbn [with_log nin nout st rl maxres dlv ctor base log past]. unfold sent, send_effects.
+    rewrite H1, H2, H3, H4, H5, H6, H7, H8, H9, H10, <- !app_assoc. reflexivity. }
+  unfold send_msg. munfold. unfold own_number in Ho.
+  gate_cases Hg w m; try discriminate; inversion Hg; subst s r; rewrite Ht;
+    cbn [nout nin st rl maxres dlv ctor base log past]; rewrite Ho, Hu;
+    cbn [nout nin st rl maxres dlv ctor base log past]; apply Hgen; reflexivity.
 Qed.
 
-(* a frame with its own number: not journaled when PossDup / gap fill, journaled under that number otherwise *)
-Lemma send_own : forall w m s r, send_gate w m = Some (s, r) -> mtype_eqb (f_type m) TTest = false ->
-  own_number m = true ->
-  send_msg m w =
-    if unjournaled m then (inl tt, written w s r (nout w) (out_frame m (f_seq m)))
-    else persist_out (out_frame m (f_seq m)) (written w s r (nout w) (out_frame m (f_seq m))).
+(* an unjournaled frame (PossDup copy, gap fill): written and drained only *)
+Lemma send_unj : forall w m s r, send_gate w m = Some (s, r) -> mtype_eqb (f_type m) TTest = false ->
+  unjournaled m = true ->
+  send_msg m w = (inl tt, written w s r (nout w) (out_frame m (f_seq m))).
 Proof.
-  intros w m s r Hg Ht Ho. unfold send_msg. munfold. unfold send_gate in Hg. unfold own_number in Ho.
-  destruct (is_disc (st w)) eqn:Hd; [discriminate|].
-  destruct (cstate_eqb (st w) NCE) eqn:Hn.
-  - destruct (mtype_eqb (f_type m) TLogon || mtype_eqb (f_type m) TLogout) eqn:Hl; [|discriminate].
-    inversion Hg; subst s r. rewrite Ht. cbn [nout nin st rl maxres dlv ctor base log past]. rewrite Ho.
-    destruct (unjournaled m); reflexivity.
-  - destruct (role_eqb (rl w) Initiator && cstate_eqb (st w) LogonSent && negb (mtype_eqb (f_type m) TLogout)) eqn:Hi;
-      [discriminate|].
-    inversion Hg; subst s r. rewrite Ht. rewrite Ho. destruct (unjournaled m); reflexivity.
+  intros w m s r Hg Ht Hu.
+  assert (Ho : mtype_eqb (f_type m) TSeqReset || f_pd m = true).
+  { unfold unjournaled in Hu. destruct (f_pd m); [apply orb_true_r|]. cbn in Hu. apply andb_prop in Hu.
+    destruct Hu as [Hu _]. rewrite Hu. reflexivity. }
+  unfold send_msg. munfold.
+  gate_cases Hg w m; try discriminate; inversion Hg; subst s r; rewrite Ht;
+    cbn [nout nin st rl maxres dlv ctor base log past]; rewrite Ho, Hu; reflexivity.
 Qed.
 
 (* ------------------------------------------------------------------ invariants *)
@@ -317,23 +345,9 @@ Qed.
 Lemma Rel_live : forall w w1 w2, Rel w w1 -> live_eq w1 w2 -> (AwOk w -> AwOk w2) -> Rel w w2.
 Proof. intros w w1 w2 H Hl Ha. eapply Rel_frame; eauto using live_eq_refl. Qed.
 
-Lemma jt_written : forall w s r no f, jt (written w s r no f) = jt w.
-Proof.
-  intros. unfold jt, db, written. cbn [base log]. rewrite !replay_app. reflexivity.
-Qed.
-
-Lemma db_written : forall w s r no f, db (written w s r no f) = db w.
-Proof.
-  intros. unfold db, written. cbn [base log]. rewrite !replay_app. reflexivity.
-Qed.
-
 Lemma gate_awaiting : forall w m s r, send_gate w m = Some (s, r) -> s = Awaiting -> st w = Awaiting.
 Proof.
-  intros w m s r Hg Hs. unfold send_gate in Hg. destruct (is_disc (st w)); [discriminate|].
-  destruct (cstate_eqb (st w) NCE).
-  - destruct (mtype_eqb (f_type m) TLogon || mtype_eqb (f_type m) TLogout); inversion Hg; subst; discriminate.
-  - destruct (role_eqb (rl w) Initiator && cstate_eqb (st w) LogonSent && negb (mtype_eqb (f_type m) TLogout));
-      inversion Hg; subst; assumption.
+  intros w m s r Hg Hs. gate_cases Hg w m; try discriminate; inversion Hg; subst; try discriminate; assumption.
 Qed.
 
 (* an original send under Out_ok: refused (nothing changes) or completed *)
@@ -341,7 +355,9 @@ Lemma send_orig_cases : forall m w, own_number m = false -> Out_ok w ->
   (send_msg m w = (inr XConn, w) /\ (send_gate w m = None \/ mtype_eqb (f_type m) TTest = true))
   \/ (exists s r w', send_gate w m = Some (s, r) /\ send_msg m w = (inl tt, w') /\ Rel w w'
                      /\ st w' = s /\ rl w' = r /\ maxres w' = maxres w /\ dlv w' = dlv w /\ nout w' = nout w + 1
-                     /\ writes (log w') = writes (log w) ++ [out_frame m (nout w)]).
+                     /\ writes (log w') = writes (log w) ++ [out_frame m (nout w)]
+                     /\ log w' = log w ++ send_effects (out_frame m (nout w))
+                     /\ jt w' = ins_out_tab (jt w) (out_frame m (nout w))).
 Proof.
   intros m w Ho Hout.
   destruct (mtype_eqb (f_type m) TTest) eqn:Ht.
@@ -349,38 +365,33 @@ Proof.
   destruct (send_gate w m) as [[s ro]|] eqn:Hg.
   2:{ left. split; auto. apply send_refused; auto. }
   right. exists s, ro.
-  rewrite (send_alloc w m s ro Hg Ht Ho).
   destruct Hout as [Hc [Hso [Hrow Hpos]]].
   set (f := out_frame m (nout w)) in *.
-  set (W := written w s ro (nout w + 1) f) in *.
-  assert (Hjt : jt W = jt w) by apply jt_written.
-  assert (Hh : has_out (jt W) (f_seq f) = false).
-  { rewrite Hjt. apply has_out_false. exact Hrow. }
-  destruct (persist_out_ok f W Hh) as [Hp Hd].
-  set (W' := with_log W (log W ++ map EStmt (persist_out_prims f))) in *.
-  exists W'. split; [reflexivity|]. split; [exact Hp|].
-  assert (HjW' : jt W' = ins_out_tab (jt W) f) by (unfold jt at 1; rewrite Hd; reflexivity).
-  rewrite Hjt in HjW'.
-  split; [|repeat split; try reflexivity].
-  2:{ cbn [W' with_log W written log]. rewrite !writes_app, writes_stmts, app_nil_r. cbn [writes].
-      rewrite app_nil_r. reflexivity. }
+  assert (Hh : has_out (jt w) (nout w) = false) by (apply has_out_false; exact Hrow).
+  destruct (send_alloc_ok w m s ro Hg Ht Ho Hh) as [Hs Hd]. fold f in Hs, Hd.
+  set (W' := sent w s ro f) in *.
+  exists W'. split; [reflexivity|]. split; [exact Hs|].
+  assert (HjW' : jt W' = ins_out_tab (jt w) f) by (unfold jt at 1; rewrite Hd; reflexivity).
+  split; [|split; [reflexivity|split; [reflexivity|split; [reflexivity|split; [reflexivity|split; [reflexivity|]]]]]].
+  2:{ split; [|split; [reflexivity|exact HjW']].
+      cbn [W' sent log]. unfold send_effects. rewrite !writes_app, writes_stmts. reflexivity. }
   constructor.
   - reflexivity.
   - rewrite HjW'. reflexivity.
   - rewrite HjW'. reflexivity.
-  - unfold Out_ok, clean. rewrite Hd, HjW'. cbn [committed cur sout rout ins_out_tab nout W' with_log W written f out_frame f_seq].
+  - unfold Out_ok, clean. rewrite Hd, HjW'. cbn [committed cur sout rout ins_out_tab nout W' sent f out_frame f_seq].
     repeat split; try lia.
     intros g Hg'. apply in_app_or in Hg'. destruct Hg' as [Hg'|[Hg'|[]]].
     + apply Hrow in Hg'. lia.
     + subst g. cbn. lia.
   - cbn. lia.
-  - exists ([EWrite f; EDrain] ++ map EStmt (persist_out_prims f)).
-    split; [cbn [W' with_log W written log]; rewrite <- !app_assoc; reflexivity|].
-    intros g Hg' Hor. cbn in Hg'. destruct Hg' as [Hg'|[]]. subst g. cbn. lia.
+  - exists (send_effects f). split; [reflexivity|].
+    intros g Hg' Hor. unfold send_effects in Hg'. rewrite writes_app, writes_stmts in Hg'. cbn in Hg'.
+    destruct Hg' as [Hg'|[]]. subst g. cbn. lia.
   - reflexivity.
   - reflexivity.
   - reflexivity.
-  - unfold AwOk. cbn [st maxres W' with_log W written]. intros Haw Hst. apply Haw.
+  - unfold AwOk. cbn [st maxres W' sent]. intros Haw Hst. apply Haw.
     eapply gate_awaiting; eauto.
 Qed.
 
@@ -473,7 +484,7 @@ Proof.
   { rewrite send_refused in Hs by auto. inversion Hs; subst. apply Quiet_refl. }
   destruct (send_gate w m) as [[s ro]|] eqn:Hg.
   2:{ rewrite send_refused in Hs by auto. inversion Hs; subst. apply Quiet_refl. }
-  rewrite (send_own w m s ro Hg Ht Ho), Hu in Hs. inversion Hs; subst r w'. clear Hs.
+  rewrite (send_unj w m s ro Hg Ht Hu) in Hs. inversion Hs; subst r w'. clear Hs.
   constructor; try reflexivity.
   - exists [EWrite (out_frame m (f_seq m)); EDrain]. split; [cbn [written log]; rewrite <- app_assoc; reflexivity|].
     split; [reflexivity|]. intros g Hg'. cbn in Hg'. destruct Hg' as [Hg'|[]]. subst g. apply own_not_original; auto.
@@ -549,7 +560,8 @@ Ltac live_tac := repeat split; reflexivity.
 Lemma gate_logout : forall w m, is_disc (st w) = false -> f_type m = TLogout -> send_gate w m <> None.
 Proof.
   intros w m Hd Ht. unfold send_gate. rewrite Hd, Ht. cbn [mtype_eqb orb negb andb].
-  destruct (cstate_eqb (st w) NCE); [discriminate|]. rewrite andb_false_r. discriminate.
+  destruct (cstate_eqb (st w) NCE); [discriminate|]. rewrite !andb_false_r.
+  destruct (role_eqb (rl w) Initiator); discriminate.
 Qed.
 
 Lemma Out_ok_live : forall a b, live_eq a b -> Out_ok a -> Out_ok b.
@@ -1043,6 +1055,11 @@ Proof.
     { destruct (disconnect false w) as [x w2] eqn:Ed.
       pose proof (disconnect_rel _ _ _ _ Ho Ed) as R.
       destruct x as [[]|e]; cbn [negb] in Eh; inversion Eh; subst; (split; [apply Rel_Step; auto|intros v E; discriminate]). }
+    cbn [negb andb] in Eh. rewrite !andb_true_r in Eh.
+    destruct (cstate_eqb (st w) LogonSent || cstate_eqb (st w) LogonRecv) eqn:Hlg.
+    { destruct (disconnect false w) as [x w2] eqn:Ed.
+      pose proof (disconnect_rel _ _ _ _ Ho Ed) as R.
+      destruct x as [[]|e]; cbn [negb] in Eh; inversion Eh; subst; (split; [apply Rel_Step; auto|intros v E; discriminate]). }
     cbn [negb] in Eh. rewrite (process_seqreset_cases f w HI) in Eh. cbv zeta in Eh.
     destruct (0 <? f_seq f) eqn:Hs.
     2:{ inversion Eh; subst. split; [apply Step_refl; auto|]. intros v E; discriminate. }
@@ -1218,11 +1235,6 @@ Proof.
   split; [|exact I']. rewrite L', writes_app, writes_stmts, app_nil_r. reflexivity.
 Qed.
 
-Lemma gate_session : forall w m, is_disc (st w) = false -> cstate_eqb (st w) NCE = false ->
-  cstate_eqb (st w) LogonSent = false -> send_gate w m = Some (st w, rl w).
-Proof.
-  intros w m Hd Hn Hl. unfold send_gate. rewrite Hd, Hn, Hl. rewrite andb_false_r. reflexivity.
-Qed.
 
 (* an acceptor with a fresh transport receives the peer's Logon numbered exactly next_num_in *)
 Lemma logon_acceptor : forall w pd a b, Inv w -> st w = NCE ->
@@ -1240,10 +1252,10 @@ Proof.
   assert (IL : Inv wL).
   { eapply Inv_live; [|exact HI|]; [live_tac|]. unfold AwOk. cbn. discriminate. }
   destruct (send_orig_cases (mkF TLogon 0 false 0 0) wL eq_refl (Inv_Out _ IL))
-    as [[_ [Hg|Hg]]|(s & ro & wS & Hg & He & HR & HsS & HrS & HmS & HdS & HnS & HwS)].
-  { rewrite gate_session in Hg by reflexivity. discriminate. }
+    as [[_ [Hg|Hg]]|(s & ro & wS & Hg & He & HR & HsS & HrS & HmS & HdS & HnS & HwS & _)].
+  { unfold send_gate in Hg. cbn in Hg. discriminate. }
   { discriminate. }
-  rewrite gate_session in Hg by reflexivity. inversion Hg; subst s ro. clear Hg.
+  unfold send_gate in Hg. cbn in Hg. inversion Hg; subst s ro. clear Hg.
   set (wA := mkW (nin wS) (nout wS) Active (rl wS) (maxres wS) (dlv wS) (ctor wS) (base wS) (log wS) (past wS)).
   assert (IS : Inv wS) by (apply (Rel_Step _ _ IL HR)).
   assert (IA : Inv wA).
@@ -1277,7 +1289,7 @@ Lemma logon_initiator : forall w pd a b, Inv w -> st w = NCE ->
 Proof.
   intros w pd a b HI Hst. pose proof HI as (Ho & HIn & Ha).
   destruct (send_orig_cases (mkF TLogon 0 false 0 0) w eq_refl Ho)
-    as [[_ [Hg|Hg]]|(s & ro & wS & Hg & He & HR & HsS & HrS & HmS & HdS & HnS & HwS)].
+    as [[_ [Hg|Hg]]|(s & ro & wS & Hg & He & HR & HsS & HrS & HmS & HdS & HnS & HwS & _)].
   { unfold send_gate in Hg. rewrite Hst in Hg. discriminate. }
   { discriminate. }
   unfold send_gate in Hg. rewrite Hst in Hg. cbn in Hg. injection Hg as E1 E2.
@@ -1291,7 +1303,7 @@ Proof.
   { eapply Inv_live; [|exact IS|]; [live_tac|]. unfold AwOk. cbn. discriminate. }
   assert (Hhead : pm_head f wS = (inl (Some true), wA)).
   { unfold pm_head. cbv beta iota delta [bind get ret raise assert_ set_st set_rl upd].
-    rewrite HsS. cbn [is_disc cstate_eqb negb f f_type mtype_eqb].
+    rewrite HsS. cbn [is_disc cstate_eqb negb f f_type mtype_eqb orb andb].
     unfold process_logon. cbv beta iota delta [bind get ret raise assert_ set_st upd].
     rewrite HrS. cbn [role_eqb f_seq]. rewrite HninS, Z.eqb_refl.
     fold wA. cbn [st wA is_disc cstate_eqb]. unfold check_gaps. cbv beta iota delta [bind get ret].
@@ -1391,30 +1403,124 @@ Qed.
 Lemma crash_at_all : forall w, crash_at (length (log w)) w = restart w.
 Proof. intros w. unfold crash_at, restart, db, allwire. rewrite firstn_all. reflexivity. Qed.
 
-Lemma no_number_reuse : forall r h m w1,
+Lemma boot_inv : forall r t sent, 0 <= sin t -> 0 <= sout t ->
+  (forall n, In n (rin t) -> n <= sin t) -> (forall g, In g (rout t) -> f_seq g <= sout t) ->
+  Inv (boot r t sent) /\ jt (boot r t sent) = t.
+Proof.
+  intros r t sent Hi Ho Hri Hro.
+  assert (Hj : jt (boot r t sent) = t) by reflexivity.
+  split; [|exact Hj]. split; [|split].
+  - split; [unfold clean; reflexivity|]. rewrite Hj. cbn [boot nout]. repeat split; try lia.
+    intros g Hg. apply Hro in Hg. lia.
+  - unfold In_ok. rewrite Hj. cbn [boot nin]. repeat split; try lia. intros n Hn. apply Hri in Hn. lia.
+  - unfold AwOk. cbn. discriminate.
+Qed.
+
+Lemma firstn_app_exact : forall A (l1 l2 : list A) j, firstn (length l1 + j) (l1 ++ l2) = l1 ++ firstn j l2.
+Proof. intros. rewrite firstn_app_2. reflexivity. Qed.
+
+(* death after the first j effects of a completed original send (journal statement, counter statement, commit, write,
+   drain): what is durable and what reached the transport *)
+Lemma send_crash_cases : forall d f j, has_out (cur d) (f_seq f) = false -> committed d = cur d -> (j <= 5)%nat ->
+  let X := firstn j (send_effects f) in
+  (committed (fold_left estep X d) = cur d /\ writes X = [] /\ (j < 3)%nat)
+  \/ (committed (fold_left estep X d) = ins_out_tab (cur d) f /\ writes X = [] /\ j = 3%nat)
+  \/ (committed (fold_left estep X d) = ins_out_tab (cur d) f /\ writes X = [f] /\ (3 < j)%nat).
+Proof.
+  intros d f j Hh Hc Hj. unfold send_effects, persist_out_prims.
+  destruct j as [|[|[|[|[|[|j]]]]]]; try lia;
+    cbn [map app firstn fold_left estep exec_prim apply_stmt fst writes]; rewrite ?Hh;
+    cbn [cur committed sin sout rin rout fst fold_left estep exec_prim apply_stmt].
+  - left. repeat split; auto; lia.
+  - left. repeat split; auto; lia.
+  - left. repeat split; auto; lia.
+  - right. left. repeat split; auto; lia.
+  - right. right. repeat split; auto; lia.
+  - right. right. repeat split; auto; lia.
+Qed.
+
+(* an original send that completed, and a death right after ANY of its effects (k = number of effects of the incarnation
+   that were executed): the restarted endpoint satisfies the invariant, its next_num_out is the old one or the old one
+   + 1, it is the latter whenever the frame reached the transport, and in every class-free continuation every original
+   frame it hands to the transport carries a number above every original number the transport ever saw *)
+Lemma no_number_reuse : forall r h m w1 k,
   class_free h = true -> own_number m = false ->
   let w := run (fresh r) h in
   send_msg m w = (inl tt, w1) ->
-  let w2 := crash_at (length (log w1)) w1 in
-  writes (log w1) = writes (log w) ++ [out_frame m (nout w)]
-  /\ nin w2 = nin w /\ nout w2 = nout w + 1
+  (length (log w) <= k <= length (log w1))%nat ->
+  let w2 := crash_at k w1 in
+  let f := out_frame m (nout w) in
+  log w1 = log w ++ send_effects f
+  /\ Inv w2 /\ nin w2 = nin w
+  /\ (nout w2 = nout w \/ nout w2 = nout w + 1)
+  /\ (In f (allwire w2) -> nout w2 = nout w + 1)
   /\ forall h', class_free h' = true ->
-       forall f, In f (skipn (length (allwire w2)) (allwire (run w2 h'))) -> original f = true -> nout w < f_seq f.
+       forall g f', In g (allwire w2) -> original g = true ->
+                    In f' (skipn (length (allwire w2)) (allwire (run w2 h'))) -> original f' = true ->
+                    f_seq g < f_seq f'.
 Proof.
-  intros r h m w1 Hc Hm w Hs w2.
+  intros r h m w1 k Hc Hm w Hs Hk w2 f.
   assert (HI : Inv w) by (apply run_inv; auto using fresh_inv).
-  destruct (send_orig_cases m w Hm (Inv_Out _ HI)) as [[He _]|(s & ro & W' & _ & He & HR & _ & _ & _ & _ & Hn & Hw)];
+  assert (HW0 : Wire 1 0 w).
+  { apply wire_run; auto using fresh_inv. split; [cbn; lia|]. split; [cbn; lia|]. intros g Hg. cbn in Hg. contradiction. }
+  destruct HW0 as (_ & _ & HW0). cbn [skipn] in HW0.
+  pose proof HI as ((Hcl & Hso & Hro & Hpo) & (Hsi & Hri & Hpi) & Ha).
+  destruct (send_orig_cases m w Hm (Inv_Out _ HI)) as [[He _]|(s & ro & W' & _ & He & HR & _ & _ & _ & _ & Hn & Hw & HL & HJ)];
     rewrite He in Hs; inversion Hs; subst W'. clear Hs.
-  assert (I1 : Inv w1) by (apply (Rel_Step _ _ HI HR)).
-  unfold w2. rewrite crash_at_all.
-  destruct (restart_inv w1 I1) as (I2 & N2 & O2 & A2 & _).
-  split; [exact Hw|]. split; [rewrite N2; apply HR|]. split; [rewrite O2; exact Hn|].
-  intros h' Hc' f Hf Hor.
-  assert (HW : Wire (nout (restart w1)) (length (allwire (restart w1))) (restart w1)).
-  { split; [lia|]. split; [lia|]. intros g Hg. rewrite skipn_all in Hg. contradiction. }
+  fold f in HL, HJ, Hw.
+  split; [exact HL|].
+  (* the crash point *)
+  assert (Hlen : length (log w1) = (length (log w) + 5)%nat) by (rewrite HL, app_length; reflexivity).
+  set (j := (k - length (log w))%nat).
+  assert (Hkj : k = (length (log w) + j)%nat) by lia.
+  assert (Hj5 : (j <= 5)%nat) by lia.
+  assert (Hh : has_out (cur (db w)) (f_seq f) = false) by (apply has_out_false; exact Hro).
+  pose proof (send_crash_cases (db w) f j Hh Hcl Hj5) as Hcases. cbv zeta in Hcases.
+  set (X := firstn j (send_effects f)) in *.
+  assert (Hw2 : w2 = boot (ctor w) (committed (fold_left estep X (db w))) (allwire w ++ writes X)).
+  { unfold w2, crash_at. rewrite (r_base _ _ HR), (r_past _ _ HR), (r_ctor _ _ HR), HL, Hkj, firstn_app_exact.
+    fold X. rewrite replay_app, writes_app, app_assoc. reflexivity. }
+  assert (Hf : f_seq f = nout w) by reflexivity.
+  assert (Hfo : original f = true).
+  { unfold original, f, out_frame. cbn [f_pd f_type]. unfold own_number in Hm. apply orb_false_iff in Hm.
+    destruct Hm as [A B]. rewrite A, B. reflexivity. }
+  (* the two possible journals *)
+  assert (B0 : Inv (boot (ctor w) (cur (db w)) (allwire w ++ writes X)) /\ jt (boot (ctor w) (cur (db w)) (allwire w ++ writes X)) = jt w).
+  { apply boot_inv; fold (jt w); try lia. - intros n Hn'. apply Hri in Hn'. lia. - intros g Hg. apply Hro in Hg. lia. }
+  assert (B1 : Inv (boot (ctor w) (ins_out_tab (jt w) f) (allwire w ++ writes X))
+               /\ jt (boot (ctor w) (ins_out_tab (jt w) f) (allwire w ++ writes X)) = ins_out_tab (jt w) f).
+  { apply boot_inv; cbn [ins_out_tab sin sout rin rout]; try lia.
+    - intros n Hn'. apply Hri in Hn'. lia.
+    - intros g Hg. apply in_app_or in Hg. destruct Hg as [Hg|[Hg|[]]]; [apply Hro in Hg; lia|subst g; lia]. }
+  assert (Hall : allwire w2 = allwire w ++ writes X).
+  { rewrite Hw2. unfold allwire at 1. cbn [boot past log writes]. rewrite app_nil_r. reflexivity. }
+  assert (Hfacts : Inv w2 /\ nin w2 = nin w /\ (nout w2 = nout w \/ nout w2 = nout w + 1)
+                   /\ (In f (writes X) -> nout w2 = nout w + 1)).
+  { destruct Hcases as [(C & Wx & Hj)|[(C & Wx & Hj)|(C & Wx & Hj)]]; rewrite Hw2, C.
+    - destruct B0 as [I0 J0]. split; [exact I0|]. cbn [boot nin nout]. fold (jt w).
+      split; [lia|]. split; [left; lia|]. rewrite Wx. intros []. 
+    - destruct B1 as [I1 J1]. fold (jt w). split; [exact I1|]. cbn [boot nin nout ins_out_tab sin sout].
+      split; [lia|]. split; [right; lia|]. intros _. lia.
+    - destruct B1 as [I1 J1]. fold (jt w). split; [exact I1|]. cbn [boot nin nout ins_out_tab sin sout].
+      split; [lia|]. split; [right; lia|]. intros _. lia. }
+  destruct Hfacts as (I2 & N2 & O2 & F2).
+  assert (Hfw : forall g, In g (writes X) -> g = f).
+  { intros g Hg. destruct Hcases as [(_ & Wx & _)|[(_ & Wx & _)|(_ & Wx & _)]]; rewrite Wx in Hg; cbn in Hg;
+      try contradiction. destruct Hg as [Hg|[]]. auto. }
+  split; [exact I2|]. split; [exact N2|]. split; [exact O2|].
+  split.
+  { intros Hin. rewrite Hall in Hin. apply in_app_or in Hin. destruct Hin as [Hin|Hin]; [|auto].
+    specialize (HW0 f Hin Hfo). lia. }
+  intros h' Hc' g f' Hg Hog Hf' Hof'.
+  assert (HW : Wire (nout w2) (length (allwire w2)) w2).
+  { split; [lia|]. split; [lia|]. intros x Hx. rewrite skipn_all in Hx. contradiction. }
   destruct (wire_run _ _ h' _ I2 Hc' HW) as (_ & _ & K).
-  specialize (K f Hf Hor). lia.
+  specialize (K f' Hf' Hof').
+  rewrite Hall in Hg. apply in_app_or in Hg. destruct Hg as [Hg|Hg].
+  - specialize (HW0 g Hg Hog). lia.
+  - pose proof (Hfw g Hg) as E. subst g. specialize (F2 Hg). lia.
 Qed.
+
 
 (* ------------------------------------------------------------------ statements over class-free histories *)
 
@@ -1504,30 +1610,32 @@ Lemma peer_logout_counted_example :
      has_resend (writes (log w2)) = false /\ st w2 = Active.
 Proof. vm_compute. repeat split; reflexivity. Qed.
 
-(* D14: death after the transport write of a send, before its journal write *)
-Definition h_d14 : list op := acc_logon.
-Definition m_d14 : frame := app_frame 0 9.
+(* the former D14 witness: every crash point of the send of an application message (effects 9..13 of the incarnation:
+   INSERT, counter UPDATE, COMMIT, transport write, drain).  Before the commit nothing is on the wire and the number is
+   still free; from the commit on the number is taken, whether or not the frame reached the wire *)
+Definition w_send9 : world := run (fresh Acceptor) (acc_logon ++ [OSend (app_frame 0 9)]).
 
-Lemma crash_before_journal_refuted :
-  exists r h m k h', class_free h = true /\ own_number m = false /\
-    let w := run (fresh r) h in
-    exists w1, send_msg m w = (inl tt, w1) /\
-    (length (log w) < k < length (log w1))%nat /\
-    In (EWrite (out_frame m (nout w))) (firstn k (log w1)) /\
-    let w2 := crash_at k w1 in
-    nout w2 = nout w /\
-    exists f_old f_new, In f_old (allwire w2) /\ In f_new (writes (log (run w2 h')))
-      /\ original f_old = true /\ original f_new = true /\ f_seq f_old = f_seq f_new /\ f_old <> f_new.
-Proof.
-  exists Acceptor, h_d14, m_d14, 9%nat, [OConnect; OIn (logon_frame 2); OSend (app_frame 0 10)].
-  split; [vm_compute; reflexivity|]. split; [reflexivity|]. cbv zeta.
-  eexists. split; [vm_compute; reflexivity|].
-  split; [vm_compute; lia|]. split; [vm_compute; auto 12|].
-  split; [vm_compute; reflexivity|].
-  exists (app_frame 2 9), (logon_frame 2).
-  split; [vm_compute; auto|]. split; [vm_compute; auto|].
-  repeat split; try reflexivity. discriminate.
-Qed.
+Lemma send_crash_points_example :
+  length (log (run (fresh Acceptor) acc_logon)) = 8%nat /\ length (log w_send9) = 13%nat
+  /\ map (fun k => (nout (crash_at k w_send9), skipn 1 (allwire (crash_at k w_send9)))) [8; 9; 10; 11; 12; 13]%nat
+     = [(2, []); (2, []); (2, []); (3, []); (3, [app_frame 2 9]); (3, [app_frame 2 9])].
+Proof. vm_compute. repeat split; reflexivity. Qed.
+
+(* death after the journal commit and before the transport write: the message is journaled but was never sent; the
+   restarted endpoint answers the peer's Logon under number 3, the peer (which expects 2) asks for a resend and gets
+   the journaled message as a PossDup copy - the message really was lost, and it is recovered *)
+Lemma journaled_unwritten_recovered :
+  let w2 := run (crash_at 11 w_send9) [OConnect; OIn (logon_frame 2); OIn (mkF TResend 3 false 2 0)] in
+  st w2 = Active /\ nin w2 = 4 /\ nout w2 = 4
+  /\ writes (log w2) = [logon_frame 3; mkF TApp 2 true 9 0; mkF TSeqReset 3 false 4 1].
+Proof. vm_compute. repeat split; reflexivity. Qed.
+
+(* before the Logon exchange has completed nothing but Logon / Logout is acceptable: an application frame makes the
+   initiator drop the connection; it is neither counted nor delivered *)
+Lemma logon_exchange_gate_example :
+  let w := run (fresh Initiator) [OConnect; OSend (logon_frame 0); OIn (app_frame 1 5)] in
+  st w = Disc /\ nin w = 1 /\ sin (jt w) = 0 /\ dlv w = [] /\ writes (log w) = [logon_frame 1].
+Proof. vm_compute. repeat split; reflexivity. Qed.
 
 (* what a duplicate inbound row does: the live counter advances, the journal does not, the error escapes *)
 Lemma duplicate_inbound_row_example :
@@ -1583,30 +1691,38 @@ Qed.
 Definition plain_type (t : mtype) : bool :=
   match t with TApp | THb | TTest => true | _ => false end.
 
+(* the Logon exchange has completed *)
+Definition established (s : cstate) : bool :=
+  match s with Handling | TooHigh | Awaiting | Active => true | _ => false end.
+
+Lemma established_facts : forall s, established s = true ->
+  is_disc s = false /\ cstate_eqb s NCE = false /\ cstate_eqb s LogonSent = false /\ cstate_eqb s LogonRecv = false.
+Proof. intros s H. destruct s; try discriminate; repeat split; reflexivity. Qed.
+
 Lemma pm_head_plain : forall f w, plain_type (f_type f) = true -> f_seq f = nin w ->
-  is_disc (st w) = false -> cstate_eqb (st w) NCE = false ->
+  established (st w) = true ->
   pm_head f w = (inl (Some true), w).
 Proof.
-  intros f w Hp Hseq Hd Hn. unfold pm_head.
+  intros f w Hp Hseq He. destruct (established_facts _ He) as (Hd & Hn & Hs & Hr). unfold pm_head.
   destruct (f_type f); try discriminate;
     cbv beta iota delta [bind get ret raise assert_ set_st set_rl upd];
-    rewrite Hd, Hn; cbn [negb]; rewrite Hd; unfold check_gaps; cbv beta iota delta [bind get ret];
+    rewrite Hd, Hn, Hs, Hr; cbn [negb orb andb]; rewrite Hd; unfold check_gaps; cbv beta iota delta [bind get ret];
     rewrite Hseq, Z.ltb_irrefl; reflexivity.
 Qed.
 
 (* on an established connection (any state past NETWORK_CONN_ESTABLISHED) every in-sequence application message,
    Heartbeat and TestRequest is counted and journaled - the counterpart of D22, where a Logout is not *)
 Lemma accepted_counted_plain : forall f w, Inv w -> plain_type (f_type f) = true -> f_seq f = nin w ->
-  is_disc (st w) = false -> cstate_eqb (st w) NCE = false ->
+  established (st w) = true ->
   let w' := run_op w (OIn f) in
   nin w' = nin w + 1 /\ sin (jt w') = nin w /\ Inv w'.
 Proof.
-  intros f w HI Hp Hseq Hd Hn. cbv zeta. unfold run_op. cbn [step].
+  intros f w HI Hp Hseq Hes. cbv zeta. unfold run_op. cbn [step].
   assert (Hs : mtype_eqb (f_type f) TSeqReset = false) by (destruct (f_type f); try discriminate; reflexivity).
   destruct (process_message f w) as [r w'] eqn:E. cbn [snd].
   unfold process_message in E. cbv beta iota delta [bind get] in E.
   assert (Htl : too_low f w = false) by (unfold too_low; rewrite Hseq, Z.ltb_irrefl; reflexivity).
-  rewrite Htl in E. unfold catch at 1 in E. rewrite (pm_head_plain f w Hp Hseq Hd Hn) in E.
+  rewrite Htl in E. unfold catch at 1 in E. rewrite (pm_head_plain f w Hp Hseq Hes) in E.
   unfold catch in E. destruct (pm_dispatch f true w) as [d w2] eqn:Ed.
   assert (R2 : Rel w w2) by (eapply RelM_pm_dispatch; eauto using Inv_Out, Inv_nin).
   assert (I2 : Inv w2) by (apply (Rel_Step _ _ HI R2)).
@@ -1636,7 +1752,8 @@ Proof.
   destruct (disconnect_disc _ _ _ _ (Inv_Out _ Ic) Edc) as [Erd Hdd]. subst rd.
   assert (Hhead : pm_head f w = (inl None, wd)).
   { unfold pm_head, process_logout. rewrite Ht. cbn [mtype_eqb].
-    cbv beta iota delta [bind get ret raise assert_ set_st set_rl upd catch]. rewrite Hd, Hn. cbn [negb].
+    cbv beta iota delta [bind get ret raise assert_ set_st set_rl upd catch]. rewrite Hd, Hn. cbn [negb andb].
+    rewrite !andb_false_r. cbn [negb].
     rewrite Ec, Edc. rewrite Hdd. reflexivity. }
   rewrite Hhead in E. unfold ret in E. inversion E; subst r w'. clear E.
   assert (Id : Inv wd) by (apply (Rel_Step _ _ Ic Rd)).
@@ -1647,11 +1764,11 @@ Definition counted_type (t : mtype) : bool :=
   match t with TApp | THb | TTest | TLogout => true | _ => false end.
 
 Lemma accepted_counted : forall f w, Inv w -> counted_type (f_type f) = true -> f_seq f = nin w ->
-  is_disc (st w) = false -> cstate_eqb (st w) NCE = false ->
+  established (st w) = true ->
   let w' := run_op w (OIn f) in
   nin w' = nin w + 1 /\ sin (jt w') = nin w /\ Inv w'.
 Proof.
-  intros f w HI Hc Hseq Hd Hn.
+  intros f w HI Hc Hseq Hes. destruct (established_facts _ Hes) as (Hd & Hn & _ & _).
   destruct (mtype_eqb (f_type f) TLogout) eqn:Hl.
   - assert (Ht : f_type f = TLogout) by (destruct (f_type f); try discriminate; reflexivity).
     destruct (logout_counted f w HI Ht Hseq Hd Hn) as (A & B & C & _). cbv zeta. auto.
